@@ -95,7 +95,12 @@ struct H {
     std::map<long, uint64_t> send_done_at;        // value -> virtual time its send completed
     std::map<long, long> send_done_adv;
     long max_latency = 0;
-    bool consumer_slept = false;
+    bool consumer_slept = false, sender_slept = false;
+    long evseq = 0;                                      // order of channel events (several can share one virtual microsecond)
+    std::vector<std::pair<long, long>> pop_done_et;      // (order, effective time) of every completed recv; effective = virtual time minus injected clock jumps
+    struct SendRec { long start_seq, end_seq; };          // end_seq 0: still inside send()
+    std::deque<SendRec> send_recs;
+    long et() { return (long)C.L.ctl.vnow - adv_total(); }
     std::set<std::string> labels;
     bool nt = false;
 
@@ -190,8 +195,11 @@ struct H {
         if (r[0] != OP_CH_SEND) return;
         long v = mk(100 + k, pseq[100 + k]++);
         pushed_ok.insert(v);
+        send_recs.push_back({++evseq, 0}); SendRec* my_rec = &send_recs.back();
         ch_send_cpu(v);
         mark_sent(v);
+        my_rec->end_seq = ++evseq;
+        if (getenv("C07_DEBUG")) fprintf(stderr, "[c07] et=%ld os%d send done\n", et(), k);
     }
     void run_op(int id, const std::vector<long>& r) {
         auto& ctl = C.L.ctl;
@@ -199,14 +207,35 @@ struct H {
             long v = mk(id, pseq[id]++);
             pushed_ok.insert(v);
             C.st[id].phase = "channel send";
+            long t0e = et(), start_seq = ++evseq;
+            send_recs.push_back({start_seq, 0}); SendRec* my_rec = &send_recs.back();
+            if (getenv("C07_DEBUG")) fprintf(stderr, "[c07] et=%ld actor%d send start\n", t0e, id);
             ch_send_photon(v);
             mark_sent(v);
+            long t1e = et();
+            if (getenv("C07_DEBUG")) fprintf(stderr, "[c07] et=%ld actor%d send done\n", t1e, id);
+            long my_seq = ++evseq;
+            my_rec->end_seq = my_seq;
+            // A producer parked on a full ring must be released when space appears, not by its 100 ms periodic re-check:
+            // slots freed at least 10 ms before it got through, minus the slots other producers took while it waited.
+            if (t1e - t0e > 2000) sender_slept = true;
+            if (t1e - t0e > 10000) {
+                long freed = 0, taken = 0;
+                for (auto& p : pop_done_et) if (p.first > start_seq && p.second <= t1e - 10000) freed++;
+                // any other send() that overlapped this one may have taken a freed slot (its push can succeed long before the call returns)
+                for (auto& sr : send_recs) if (&sr != my_rec && sr.start_seq < my_seq && (sr.end_seq == 0 || sr.end_seq > start_seq)) taken++;
+                if (freed > taken)
+                    ctl.violation("a producer blocked in send() on a full ring got through " + std::to_string(t1e - t0e) + " us (virtual) after it started although " + std::to_string(freed) +
+                                  " slot(s) had been freed more than 10 ms earlier and only " + std::to_string(taken) + " other send(s) overlapped it" + std::string() + ": it was not notified, only its periodic re-check rescued it");
+            }
         } else if (r[0] == OP_CH_RECV) {
             C.st[id].phase = "channel recv";
             uint64_t t0 = ctl.vnow;
             long v = ch_recv();
             uint64_t t1 = ctl.vnow;
             if (!pushed_ok.count(v)) ctl.violation("channel recv returned " + std::to_string(v) + ", a value nobody sent");
+            pop_done_et.push_back({++evseq, et()});
+            if (getenv("C07_DEBUG")) fprintf(stderr, "[c07] et=%ld actor%d recv done\n", et(), id);
             popped.insert(v);
             if (popped.count(v) > 1) ctl.violation("channel delivered a value twice");
             int p = (int)(v >> 32); long s = v & 0xffffffff;
@@ -284,7 +313,8 @@ Outcome run_case(const Case& c) {
     if (h.pushed_ok != h.popped) return Outcome::violation("channel: values sent and values received differ (" + std::to_string(h.pushed_ok.size()) + " vs " + std::to_string(h.popped.size()) + ")");
     if (h.fch) H::FChan::destroy(h.fch);
     Outcome& out = ctl.out;
-    out.nontrivial = h.consumer_slept;
+    out.nontrivial = h.consumer_slept || h.sender_slept;
+    if (h.sender_slept) out.label("producer_waited_on_a_full_ring");
     if (h.consumer_slept) out.label("consumer_slept_in_semaphore_and_was_woken");
     out.label(h.chkind == 3 ? "channel:flex" : "channel:ring");
     h.C.L.stats_labels(out);
@@ -311,7 +341,8 @@ rc::Gen<Case> gen_case(const vf::Options&) {
         }
         // channel: consumers are photon actors; producers photon actors or OS threads; #recv == #send
         long nv = *vf::range(1, 3), chkind = *vf::range(1, 3);
-        long ncons = *vf::range(1, 3), nprod_ph = *vf::range(0, 2), nprod_os = nprod_ph == 0 ? *vf::range(1, 2) : *vf::range(0, 1);
+        bool slow_consumers = *vf::range(0, 1) == 1;
+        long ncons = *vf::range(1, 3), nprod_ph = slow_consumers ? *vf::range(1, 3) : *vf::range(0, 2), nprod_os = nprod_ph == 0 ? *vf::range(1, 2) : *vf::range(0, 1);
         c.cfg = {nv, 0, 0, 0, nprod_os, 1, chkind, *vf::oneof<long>({0, 1, 2}), *vf::oneof<long>({1, 2, 3, 4})};
         long total = 0;
         std::vector<long> sends;
@@ -319,7 +350,12 @@ rc::Gen<Case> gen_case(const vf::Options&) {
         for (long i = 0; i < ncons; i++) c.S("actor").push_back({*vf::range(0, nv - 1), 0});
         for (long i = 0; i < nprod_ph; i++) c.S("actor").push_back({*vf::range(0, nv - 1), 0});
         // distribute the recvs over the consumers
-        for (long t = 0; t < total; t++) c.S("a" + std::to_string(*vf::range(0, ncons - 1))).push_back({OP_CH_RECV});
+        for (long t = 0; t < total; t++) {
+            auto& prog = c.S("a" + std::to_string(*vf::range(0, ncons - 1)));
+            // slow consumers let the ring fill up, so that producers park on it; pops then come in bursts
+            if (slow_consumers && *vf::range(0, 2) == 0) prog.push_back({OP_SLEEP, *vf::range(2000, 30000)});
+            prog.push_back({OP_CH_RECV});
+        }
         for (long p = 0; p < nprod_ph; p++) {
             auto& prog = c.S("a" + std::to_string(ncons + p));
             for (long i = 0; i < sends[p]; i++) { if (*vf::range(0, 2) == 0) prog.push_back({OP_SLEEP, *rc::gen::weightedOneOf<long>({{3, vf::range(1, 300)}, {2, vf::range(301, 30000)}})}); prog.push_back({OP_CH_SEND}); }
